@@ -95,7 +95,9 @@ def dp(s1, s2, fn, border=None, window=None, max_dist=None,
         else:
             prev_last_under_max_dist = last_under_max_dist
         last_under_max_dist = -1
-        for j0 in range(max(0, i0 - max(0, r - c) - window + 1), min(c, i0 + max(0, c - r) + window)):
+        j_start = max(0, i0 - max(0, r - c) - window + 1)
+        j_end = min(c, i0 + max(0, c - r) + window)
+        for j0 in range(j_start, j_end):
             j1 = j0 + 1
             d, d_indel = fn(s1[i0], s2[j0])
             if max_step is not None:
@@ -124,8 +126,9 @@ def dp(s1, s2, fn, border=None, window=None, max_dist=None,
                     scores[i1, j1] = np.inf
                     if prev_last_under_max_dist < j1:
                         break
-        if max_dist is not None and last_under_max_dist == -1:
-            return np.inf, scores
+        if max_dist is not None and last_under_max_dist == -1 and j_start < j_end:
+            # No cell of this (non-empty) row is below max_dist
+            return np.inf, scores, paths
     if psi == 0:
         d = scores[i1, min(c, c + window - 1)]
     else:
